@@ -1168,6 +1168,68 @@ def Fn.join (f : Fn α) : Except Err (Obj α) :=
 end freeze
 
 
+/-! ### `DiagonalReplicated` (`operator/_stack.py`, `linop/_stack.py`; after repo commit 9420b1a) -/
+
+section drep
+variable {α : Type} [Add α] [Sub α] [Mul α] [Div α] [Neg α] [Zero α] [One α] [HasConj α] [HasRe α]
+
+/-- axis normalisation of `DiagonalReplicated`: `ax ∈ [-(d+1), d]` ↦ position in `[0, d]`
+    (`d` = number of axes of the operand's shape) -/
+def normAxis (d : Nat) (ax : Int) : Option Nat :=
+  let a := if ax < 0 then (d : Int) + 1 + ax else ax
+  if a < 0 ∨ a > (d : Int) then none else some a.toNat
+
+/-- `shape[0:a] + (N,) + shape[a:]` -/
+def insertDim (dims : List Nat) (a N : Nat) : List Nat := dims.take a ++ N :: dims.drop a
+
+/-- flat index, in the array with the replicate axis (`N` replicates, `P` = number of elements behind
+    the axis), of entry `r` of replicate `k` -/
+def joinIdx (N P k r : Nat) : Nat := ((r / P) * N + k) * P + r % P
+/-- replicate number / inner flat index of flat index `t` -/
+def repK (N P t : Nat) : Nat := (t / P) % N
+def repRest (N P t : Nat) : Nat := (t / (N * P)) * P + t % P
+
+/-- replicate `k` of the flattened input (`jax.vmap` `in_axes`) -/
+@[noinline] def vtake (n N P k : Nat) (x : Vc α) : Vc α := trunc n (fun j => x.get (joinIdx N P k j))
+/-- stack the `N` results along the replicate axis (`jax.vmap` `out_axes`) -/
+@[noinline] def vgather (tot N P : Nat) (ys : List (Vc α)) : Vc α :=
+  trunc tot (fun t => (ys.getD (repK N P t) zeroV).get (repRest N P t))
+
+def axesOf : Shape → Nat
+  | .plain d => d.length
+  | .nested bs => bs.length
+
+/-- `linop.DiagonalReplicated(op, N, input_axis, output_axis)` (`lin = true`) /
+    `operator.DiagonalReplicated` (`lin = false`) with `map_type = "vmap"` -/
+def drep (lin : Bool) (o : Obj α) (N : Nat) (ia : Int) (oa : Option Int) : Except Err (Obj α) :=
+  if lin && o.md.cls = .op then .error .type
+  else
+    match normAxis (axesOf o.md.inShape) ia with
+    | none => .error .shape
+    | some a =>
+      match o.md.inShape, o.md.outShape with
+      | .nested _, _ => .error .value
+      | .plain _, .nested _ => .error .value
+      | .plain din, .plain dout =>
+        let b? : Option Nat := match oa with
+          | none => if a > dout.length then none else some a
+          | some ax => normAxis dout.length ax
+        match b? with
+        | none => .error .shape
+        | some b =>
+          let pin := prodL (din.drop a)
+          let pout := prodL (dout.drop b)
+          let ev : Vc α → Vc α := fun x =>
+            vgather (N * o.m) N pout ((List.range N).map (fun k => o.eval (vtake o.n N pin k x)))
+          let ad : Vc α → Vc α := fun y =>
+            vgather (N * o.n) N pin ((List.range N).map (fun k => o.adj (vtake o.m N pout k y)))
+          if lin then
+            .ok (mkLin .linop (.plain (insertDim din a N)) (.plain (insertDim dout b N)) o.md.inDt o.md.outDt
+              ev ad o.evalDt o.adjCallDt)
+          else .ok (mkOp (.plain (insertDim din a N)) (.plain (insertDim dout b N)) o.md.inDt o.md.outDt ev o.evalDt)
+
+end drep
+
 /-! ### expressions -/
 
 /-- operator expressions; leaves carry real scico constructor arguments -/
